@@ -39,6 +39,7 @@ Definition spec_prog (l : list Z) : list (list Z) :=
       else txt ++ [enc_mres (meaning cf p)]
            ++ [63 :: of_text (match pr_name p with Some n => n | None => [] end)]
            ++ [64 :: of_text (match pr_author p with Some n => n | None => [] end)]
+           ++ [67 :: of_text (strategy_meta s)]
     | None => [[0]]
     end
   | _ => [[0]]
